@@ -189,67 +189,22 @@ pub fn converge_cases(ctx: &mut Ctx) -> Vec<Case> {
     out
 }
 
-/// Both layers: R incompressible bytes followed by constant data make the first compressed block
-/// about R + c bytes long; R is tuned until the end of that block lies at `residue` bytes from an
-/// encryption chunk edge (the compressed stream is what the encryption layer cuts into chunks)
+/// Both layers: the first compressed block ends `residue` bytes from an encryption chunk edge
+/// (the compressed stream is what the encryption layer cuts into chunks); see shapes.rs
 pub fn comp_block_residue_case(ctx: &mut Ctx, residue: i64, level: u32, standalone: bool) -> Option<Case> {
-    let k = ctx.k;
-    let seed = ctx.seed;
-    // f0: r incompressible bytes; f1: t bytes of text (varies the bit length of what follows);
-    // f2: constant data running over the end of the first compression block
-    let mk = |layers: u8, r: i64, t: i64| Program {
-        layers,
-        level,
-        nrecip: 2,
-        files: vec![
-            FileSpec { name: NameKind::Plain(0), data: DataKind::Random },
-            FileSpec { name: NameKind::Plain(1), data: DataKind::Text },
-            FileSpec { name: NameKind::Plain(2), data: DataKind::Constant(0x3c) },
-        ],
-        ops: vec![Op::Add(0, Sz::lit(r)), Op::Add(1, Sz::lit(t)), Op::Add(2, Sz::new(1, 2, 777)), Op::Finalize],
-        seed: seed ^ 0xC0B1,
-    };
-    // compression-only twin: (size of the first compressed block, whether the decoder yields
-    // the whole block without being given its last byte)
-    let probe = |r: i64, t: i64| -> Option<(i64, bool)> {
-        let twin = drv::build(&mk(2, r, t), &k, Sched::All).ok()?;
-        let d = model::fmt::decode_archive(&k, &twin.raw, &[]).ok()?;
-        let s0 = i64::from(*d.comp.as_ref()?.sizes.first()?);
-        let block = twin.raw.get(d.header.len..d.header.len + s0 as usize - 1)?;
-        let unneeded = standalone && model::fmt::brotli_decompress_prefix(block).len() as u64 == k.block;
-        Some((s0, unneeded))
-    };
-    let want = residue.rem_euclid(k.chunk as i64);
-    // the brotli decoder may produce the whole block before it asks for the last compressed
-    // byte (which then only holds the end-of-stream bits), and so leave it unread in the layer
-    // below: `standalone` asks for that shape of block end, found by varying t
-    for t in 1..=64_i64 {
-        let t = t * 29;
-        let mut r = 5 * k.chunk as i64 + 4321;
-        for _ in 0..6 {
-            let (s0, last) = probe(r, t)?;
-            if standalone && !last {
-                break;
+    match crate::shapes::block_end(&ctx.k, ctx.seed, 3, level, crate::shapes::Grid::Chunk, residue, standalone, false) {
+        Some(prog) => {
+            ctx.count("musthit:compressed_block_end_next_to_chunk_edge");
+            if standalone {
+                ctx.count("musthit:compressed_block_ends_with_standalone_final_byte");
             }
-            let have = s0.rem_euclid(k.chunk as i64);
-            if have == want {
-                ctx.count("musthit:compressed_block_end_next_to_chunk_edge");
-                if standalone {
-                    ctx.count("musthit:compressed_block_ends_with_standalone_final_byte");
-                }
-                return Some(Case { prog: mk(3, r, t), reader: 1, decoys: 1, rseed: 4 });
-            }
-            r += (want - have).rem_euclid(k.chunk as i64);
-            if r > 3 * k.block as i64 / 4 {
-                r -= k.chunk as i64 * 8;
-            }
+            Some(Case { prog, reader: 1, decoys: 1, rseed: 4 })
         }
-        if !standalone {
-            break;
+        None => {
+            ctx.count("comp_block_residue_not_reached");
+            None
         }
     }
-    ctx.count("comp_block_residue_not_reached");
-    None
 }
 
 pub fn run_case(ctx: &mut Ctx, c: &Case) {
